@@ -94,7 +94,22 @@ def main(argv):
         spec = json.load(f)
     sys.path.insert(0, os.path.join(spec['repo'], 'src'))
     import logging
-    logging.disable(logging.CRITICAL)
+
+    class _Capture(logging.Handler):
+        # what the converters log at ERROR and above is kept out of the terminal and counted by exception type: the evidence shows
+        # whether failing files fail with the format's own errors or with others (KeyError, UnicodeDecodeError ... from damaged content)
+        def emit(self, record):
+            try:
+                exc = record.exc_info[0].__name__ if record.exc_info and record.exc_info[0] else 'no-exception-attached'
+                _log({'ev': 'logged_exc', 'task': _current_task[0] or '', 'exc': exc, 'level': record.levelname})
+            except Exception:  # noqa
+                pass
+    root = logging.getLogger()
+    for h in list(root.handlers):
+        root.removeHandler(h)
+    root.addHandler(_Capture())
+    root.setLevel(logging.ERROR)
+    logging.disable(logging.WARNING)
     if spec.get('native_preseed'):
         from tdv.core import env, native
         env.bootstrap_repo()
